@@ -5,6 +5,7 @@ package coroutines
 // carries the request's kind and a readable status, and no path panics.
 
 import (
+	"github.com/resonatehq/resonate/internal/kernel/bus"
 	"github.com/resonatehq/resonate/internal/kernel/t_api"
 	"github.com/resonatehq/resonate/internal/vx"
 	"github.com/resonatehq/resonate/pkg/idempotency"
@@ -25,13 +26,22 @@ func vhC12Check(kind t_api.Kind, res *t_api.Response, err error) {
 	vx.Assert(st >= 200, "C12:status-set")
 }
 
+// vhKernelRun: the request travels the real kernel path (api queue -> System.Tick -> AddOnRequest wrapper ->
+// the coroutine cmd/serve registers -> api.EnqueueCQE) and must be answered exactly once within the tick.
+func vhKernelRun(c vx.Coro, req *t_api.Request) (*t_api.Response, error) {
+	calls := 0
+	res, err, n := VXProcess(c, &bus.SQE[t_api.Request, t_api.Response]{Id: "r", Submission: req, Callback: func(*t_api.Response, error) { calls++ }})
+	vx.Assert(n == 1 && calls == 1, "C12:kernel-answers-exactly-once")
+	return res, err
+}
+
 func vhC12Setup() vx.Coro { return vhSetup(vx.HavocMode | vx.Faults(vx.Opt("faults", 2))) }
 
 func vhTags() map[string]string { return map[string]string{"id": "r"} }
 
 func VH_X_ReadPromise() {
 	c := vhC12Setup()
-	res, err := ReadPromise(c, &t_api.Request{Kind: t_api.ReadPromise, Tags: vhTags(), ReadPromise: &t_api.ReadPromiseRequest{Id: vx.String("id")}})
+	res, err := vhKernelRun(c, &t_api.Request{Kind: t_api.ReadPromise, Tags: vhTags(), ReadPromise: &t_api.ReadPromiseRequest{Id: vx.String("id")}})
 	vhC12Check(t_api.ReadPromise, res, err)
 }
 
@@ -39,14 +49,14 @@ func VH_X_SearchPromises() {
 	c := vhC12Setup()
 	pat, limit := vx.String("pattern"), vx.Int("limit")
 	vx.Assume(vx.And(pat != "", limit >= 1, limit <= 2))
-	res, err := SearchPromises(c, &t_api.Request{Kind: t_api.SearchPromises, Tags: vhTags(), SearchPromises: &t_api.SearchPromisesRequest{Id: pat,
+	res, err := vhKernelRun(c, &t_api.Request{Kind: t_api.SearchPromises, Tags: vhTags(), SearchPromises: &t_api.SearchPromisesRequest{Id: pat,
 		States: []promise.State{promise.Pending}, Tags: vx.Tags("tags", 0), Limit: limit, SortId: vx.Int64Ptr("sortId")}})
 	vhC12Check(t_api.SearchPromises, res, err)
 }
 
 func VH_X_CreatePromise() {
 	c := vhC12Setup()
-	res, err := CreatePromise(c, &t_api.Request{Kind: t_api.CreatePromise, Tags: vhTags(), CreatePromise: vhCreateReq()})
+	res, err := vhKernelRun(c, &t_api.Request{Kind: t_api.CreatePromise, Tags: vhTags(), CreatePromise: vhCreateReq()})
 	vhC12Check(t_api.CreatePromise, res, err)
 }
 
@@ -55,7 +65,7 @@ func VH_X_CreatePromiseAndTask() {
 	req := vhCreateReq()
 	pid, ttl := vx.String("processId"), vx.Int("ttl")
 	vx.Assume(vx.And(pid != "", ttl >= 0, ttl < 1<<31))
-	res, err := CreatePromiseAndTask(c, &t_api.Request{Kind: t_api.CreatePromiseAndTask, Tags: vhTags(), CreatePromiseAndTask: &t_api.CreatePromiseAndTaskRequest{Promise: req,
+	res, err := vhKernelRun(c, &t_api.Request{Kind: t_api.CreatePromiseAndTask, Tags: vhTags(), CreatePromiseAndTask: &t_api.CreatePromiseAndTaskRequest{Promise: req,
 		Task: &t_api.CreateTaskRequest{PromiseId: req.Id, ProcessId: pid, Ttl: ttl, Timeout: req.Timeout}}})
 	vhC12Check(t_api.CreatePromiseAndTask, res, err)
 }
@@ -64,7 +74,7 @@ func VH_X_CompletePromise() {
 	c := vhC12Setup()
 	state := vx.Int64("state")
 	vx.Assume(vx.Or(state == 2, state == 4, state == 8))
-	res, err := CompletePromise(c, &t_api.Request{Kind: t_api.CompletePromise, Tags: vhTags(), CompletePromise: &t_api.CompletePromiseRequest{Id: vx.String("id"),
+	res, err := vhKernelRun(c, &t_api.Request{Kind: t_api.CompletePromise, Tags: vhTags(), CompletePromise: &t_api.CompletePromiseRequest{Id: vx.String("id"),
 		IdempotencyKey: (*idempotency.Key)(vx.StringPtr("ikey")), Strict: vx.Bool("strict"), State: promise.State(state), Value: promise.Value{Headers: vx.Tags("vhdr", 1), Data: vx.Bytes("vdata")}}})
 	vhC12Check(t_api.CompletePromise, res, err)
 }
@@ -73,7 +83,7 @@ func VH_X_CreateCallback() {
 	c := vhC12Setup()
 	recv := vx.Bytes("recv")
 	vx.Assume(!vx.BytesNil(recv))
-	res, err := CreateCallback(c, &t_api.Request{Kind: t_api.CreateCallback, Tags: vhTags(), CreateCallback: &t_api.CreateCallbackRequest{Id: vx.String("id"),
+	res, err := vhKernelRun(c, &t_api.Request{Kind: t_api.CreateCallback, Tags: vhTags(), CreateCallback: &t_api.CreateCallbackRequest{Id: vx.String("id"),
 		PromiseId: vx.String("promiseId"), RootPromiseId: vx.String("rootPromiseId"), Timeout: vx.Int64("timeout"), Recv: recv}})
 	vhC12Check(t_api.CreateCallback, res, err)
 }
@@ -82,14 +92,14 @@ func VH_X_CreateSubscription() {
 	c := vhC12Setup()
 	recv := vx.Bytes("recv")
 	vx.Assume(!vx.BytesNil(recv))
-	res, err := CreateSubscription(c, &t_api.Request{Kind: t_api.CreateSubscription, Tags: vhTags(), CreateSubscription: &t_api.CreateSubscriptionRequest{Id: vx.String("id"),
+	res, err := vhKernelRun(c, &t_api.Request{Kind: t_api.CreateSubscription, Tags: vhTags(), CreateSubscription: &t_api.CreateSubscriptionRequest{Id: vx.String("id"),
 		PromiseId: vx.String("promiseId"), Timeout: vx.Int64("timeout"), Recv: recv}})
 	vhC12Check(t_api.CreateSubscription, res, err)
 }
 
 func VH_X_ReadSchedule() {
 	c := vhC12Setup()
-	res, err := ReadSchedule(c, &t_api.Request{Kind: t_api.ReadSchedule, Tags: vhTags(), ReadSchedule: &t_api.ReadScheduleRequest{Id: vx.String("id")}})
+	res, err := vhKernelRun(c, &t_api.Request{Kind: t_api.ReadSchedule, Tags: vhTags(), ReadSchedule: &t_api.ReadScheduleRequest{Id: vx.String("id")}})
 	vhC12Check(t_api.ReadSchedule, res, err)
 }
 
@@ -97,13 +107,13 @@ func VH_X_SearchSchedules() {
 	c := vhC12Setup()
 	pat, limit := vx.String("pattern"), vx.Int("limit")
 	vx.Assume(vx.And(pat != "", limit >= 1, limit <= 2))
-	res, err := SearchSchedules(c, &t_api.Request{Kind: t_api.SearchSchedules, Tags: vhTags(), SearchSchedules: &t_api.SearchSchedulesRequest{Id: pat, Tags: vx.Tags("tags", 0), Limit: limit, SortId: vx.Int64Ptr("sortId")}})
+	res, err := vhKernelRun(c, &t_api.Request{Kind: t_api.SearchSchedules, Tags: vhTags(), SearchSchedules: &t_api.SearchSchedulesRequest{Id: pat, Tags: vx.Tags("tags", 0), Limit: limit, SortId: vx.Int64Ptr("sortId")}})
 	vhC12Check(t_api.SearchSchedules, res, err)
 }
 
 func VH_X_CreateSchedule() {
 	c := vhC12Setup()
-	res, err := CreateSchedule(c, &t_api.Request{Kind: t_api.CreateSchedule, Tags: vhTags(), CreateSchedule: &t_api.CreateScheduleRequest{Id: vx.String("id"), Description: vx.String("desc"),
+	res, err := vhKernelRun(c, &t_api.Request{Kind: t_api.CreateSchedule, Tags: vhTags(), CreateSchedule: &t_api.CreateScheduleRequest{Id: vx.String("id"), Description: vx.String("desc"),
 		Cron: vx.String("cron"), Tags: vx.Tags("tags", 1), PromiseId: vx.String("promiseId"), PromiseTimeout: vx.Int64("promiseTimeout"),
 		PromiseParam: promise.Value{Headers: vx.Tags("phdr", 1), Data: vx.Bytes("pdata")}, PromiseTags: vx.Tags("ptags", 1), IdempotencyKey: (*idempotency.Key)(vx.StringPtr("ikey"))}})
 	vhC12Check(t_api.CreateSchedule, res, err)
@@ -111,7 +121,7 @@ func VH_X_CreateSchedule() {
 
 func VH_X_DeleteSchedule() {
 	c := vhC12Setup()
-	res, err := DeleteSchedule(c, &t_api.Request{Kind: t_api.DeleteSchedule, Tags: vhTags(), DeleteSchedule: &t_api.DeleteScheduleRequest{Id: vx.String("id")}})
+	res, err := vhKernelRun(c, &t_api.Request{Kind: t_api.DeleteSchedule, Tags: vhTags(), DeleteSchedule: &t_api.DeleteScheduleRequest{Id: vx.String("id")}})
 	vhC12Check(t_api.DeleteSchedule, res, err)
 }
 
@@ -119,20 +129,20 @@ func VH_X_AcquireLock() {
 	c := vhC12Setup()
 	ttl := vx.Int64("ttl")
 	vx.Assume(ttl >= 0)
-	res, err := AcquireLock(c, &t_api.Request{Kind: t_api.AcquireLock, Tags: vhTags(), AcquireLock: &t_api.AcquireLockRequest{ResourceId: vx.String("resourceId"),
+	res, err := vhKernelRun(c, &t_api.Request{Kind: t_api.AcquireLock, Tags: vhTags(), AcquireLock: &t_api.AcquireLockRequest{ResourceId: vx.String("resourceId"),
 		ExecutionId: vx.String("executionId"), ProcessId: vx.String("processId"), Ttl: ttl}})
 	vhC12Check(t_api.AcquireLock, res, err)
 }
 
 func VH_X_ReleaseLock() {
 	c := vhC12Setup()
-	res, err := ReleaseLock(c, &t_api.Request{Kind: t_api.ReleaseLock, Tags: vhTags(), ReleaseLock: &t_api.ReleaseLockRequest{ResourceId: vx.String("resourceId"), ExecutionId: vx.String("executionId")}})
+	res, err := vhKernelRun(c, &t_api.Request{Kind: t_api.ReleaseLock, Tags: vhTags(), ReleaseLock: &t_api.ReleaseLockRequest{ResourceId: vx.String("resourceId"), ExecutionId: vx.String("executionId")}})
 	vhC12Check(t_api.ReleaseLock, res, err)
 }
 
 func VH_X_HeartbeatLocks() {
 	c := vhC12Setup()
-	res, err := HeartbeatLocks(c, &t_api.Request{Kind: t_api.HeartbeatLocks, Tags: vhTags(), HeartbeatLocks: &t_api.HeartbeatLocksRequest{ProcessId: vx.String("processId")}})
+	res, err := vhKernelRun(c, &t_api.Request{Kind: t_api.HeartbeatLocks, Tags: vhTags(), HeartbeatLocks: &t_api.HeartbeatLocksRequest{ProcessId: vx.String("processId")}})
 	vhC12Check(t_api.HeartbeatLocks, res, err)
 }
 
@@ -140,24 +150,24 @@ func VH_X_ClaimTask() {
 	c := vhC12Setup()
 	pid, ttl := vx.String("processId"), vx.Int("ttl")
 	vx.Assume(vx.And(pid != "", ttl >= 0, ttl < 1<<31))
-	res, err := ClaimTask(c, &t_api.Request{Kind: t_api.ClaimTask, Tags: vhTags(), ClaimTask: &t_api.ClaimTaskRequest{Id: vx.String("id"), Counter: vx.Int("counter"), ProcessId: pid, Ttl: ttl}})
+	res, err := vhKernelRun(c, &t_api.Request{Kind: t_api.ClaimTask, Tags: vhTags(), ClaimTask: &t_api.ClaimTaskRequest{Id: vx.String("id"), Counter: vx.Int("counter"), ProcessId: pid, Ttl: ttl}})
 	vhC12Check(t_api.ClaimTask, res, err)
 }
 
 func VH_X_CompleteTask() {
 	c := vhC12Setup()
-	res, err := CompleteTask(c, &t_api.Request{Kind: t_api.CompleteTask, Tags: vhTags(), CompleteTask: &t_api.CompleteTaskRequest{Id: vx.String("id"), Counter: vx.Int("counter")}})
+	res, err := vhKernelRun(c, &t_api.Request{Kind: t_api.CompleteTask, Tags: vhTags(), CompleteTask: &t_api.CompleteTaskRequest{Id: vx.String("id"), Counter: vx.Int("counter")}})
 	vhC12Check(t_api.CompleteTask, res, err)
 }
 
 func VH_X_HeartbeatTasks() {
 	c := vhC12Setup()
-	res, err := HeartbeatTasks(c, &t_api.Request{Kind: t_api.HeartbeatTasks, Tags: vhTags(), HeartbeatTasks: &t_api.HeartbeatTasksRequest{ProcessId: vx.String("processId")}})
+	res, err := vhKernelRun(c, &t_api.Request{Kind: t_api.HeartbeatTasks, Tags: vhTags(), HeartbeatTasks: &t_api.HeartbeatTasksRequest{ProcessId: vx.String("processId")}})
 	vhC12Check(t_api.HeartbeatTasks, res, err)
 }
 
 func VH_X_Echo() {
 	c := vhC12Setup()
-	res, err := Echo(c, &t_api.Request{Kind: t_api.Echo, Tags: vhTags(), Echo: &t_api.EchoRequest{Data: vx.String("data")}})
+	res, err := vhKernelRun(c, &t_api.Request{Kind: t_api.Echo, Tags: vhTags(), Echo: &t_api.EchoRequest{Data: vx.String("data")}})
 	vhC12Check(t_api.Echo, res, err)
 }
